@@ -5,7 +5,11 @@
      Cr i k js o          the real stores were set to "state before delivering block i + the first k
                           model-level writes of that delivery (+ the first j writes of each interrupted
                           repair in js)", the chain initialisation was run, observables afterwards.
-   Cr steps do not advance the model state; they precede the Dl step of the same delivery. *)
+   Cr steps do not advance the model state; they precede the Dl step of the same delivery.
+     Gw wcls              the index-store writes the real insertGenesisBlock issued at the first start;
+     Gn k o               the stores were set to the first k model-level writes of insertGenesisBlock, the
+                          chain initialisation was run, observables afterwards (only prefixes that
+                          contain the head record are replayed on the real code). *)
 From Coq Require Import List NArith Bool.
 From V.C05 Require Import Model.
 Import ListNotations.
@@ -21,7 +25,9 @@ Record obs := O { o_head : N; o_heights : list N; o_vh : list bool; o_hashes : l
 
 Inductive step :=
 | Dl (i : nat) (res : N) (wcls : list (N * N)) (o : obs)
-| Cr (i : nat) (k : nat) (js : list nat) (o : obs).
+| Cr (i : nat) (k : nat) (js : list nat) (o : obs)
+| Gw (wcls : list (N * N))
+| Gn (k : nat) (o : obs).
 
 Definition res_code (r : result) : N :=
   match r with RSucc => 0 | RExisted => 1 | RQnLess => 2 | RNoPre => 3 | RFailed => 4 | RFuel => 99 end.
@@ -102,6 +108,11 @@ Fixpoint steps_ok (blocks : list block) (fut : vol) (s : st) (l : list step) : b
       let b := nth i blocks dummy in
       let ws := deliver_writes fut s b in
       obs_ok blocks (recover (faults js (crash k ws s))) o && steps_ok blocks fut s r
+  | Gw wcls :: r =>
+      list_eqb pair_eqb (classes (genesis_writes (nth 0 blocks dummy))) wcls && steps_ok blocks fut s r
+  | Gn k o :: r =>
+      let g := nth 0 blocks dummy in
+      obs_ok blocks (boot g (crash k (genesis_writes g) st0)) o && steps_ok blocks fut s r
   end.
 
 Definition check (c : list block * list step) : bool :=
